@@ -50,7 +50,8 @@ Record facts := mk_facts {
   f_replies : list (string * string * (nat * nat));  (* min/max tagged completions over all paths *)
   f_default_once : bool;                             (* the default clauses answer one tagged BAD *)
   f_select_clears : bool;                            (* HandleSelect clears the selection first *)
-  f_auth_final : bool }.                             (* no tagged NO/BAD can follow state.Authenticated := true on any path *)
+  f_auth_final : bool;                               (* no tagged NO/BAD can follow state.Authenticated := true on any path *)
+  f_short_tagged : bool }.                           (* a line with a tag and nothing else is answered with one tagged reply *)
 
 Definition is_acc (k : site_kind) : bool :=
   match k with AccUserSelf | AccUserOther | AccSelected | AccRole | AccShared => true | _ => false end.
